@@ -54,7 +54,13 @@ TECHNIQUE = (
     "command reads an option of its own config object and assigns another value to it at a lifecycle point at or before its ending (what `scan uds identifiers` does with `end`), and the config in "
     "META.json / run_meta is compared with the config the run was started with. The Ctrl-C-while-the-run-entry-is-completed runs hold the command at the very end of run(), take the database's "
     "write lock (stdlib sqlite3) once the scan_result table has stopped growing, send the signal after the child has noted the command's call of DBHandler.complete_run_meta() and release the lock only "
-    "when the child has noted that this call was ended by CancelledError"
+    "when the child has noted that this call was ended by CancelledError. Two dimensions of a process that runs more than one command: (a) in every second run with an artifacts dir "
+    "the child has run another gallia command (a small AsyncScript with an artifacts dir of its own) to its end through asyncio.run(entry_point()) before the judged command object is created; every "
+    "harness command class notes the time in __init__ right before BaseCommand.__init__ runs and the child notes the time when entry_point() has ended, and the start/end times in every META.json "
+    "(judged run, earlier run, inner and outer run of nested runs) must lie inside that run's window - and the later run's start not before the earlier run's end; (b) runs in which the judged "
+    "command and a second command with the same lock file are two tasks of one event loop: one of them sits suspended at a lifecycle point, holding the lock, when the other one's entry_point() is "
+    "started; both are judged on their own artefacts, the waiter's lifecycle may only begin after the holder's entry_point() ended, and a heartbeat task watched by a thread tells whether the loop "
+    "still turns (no turn for 10 s, reproduced when the case is repeated: the runs can never end)"
 )
 LEVEL_TEXT = (
     "Fault enumeration: command kind x exit kind x lifecycle point is enumerated completely in both tiers (3 x (1 + 9 x 5) = "
@@ -75,7 +81,9 @@ LEVEL_TEXT = (
     "gallia's Rerunner runs the harness command inside its own run, plus 9 runs (kind x slow hook in {pre, post, both}; thorough: 72 = x 8 endings) with long-running hooks under the "
     "scaled subprocess clock and 1 run (thorough: 2) whose hook really sleeps 20 s (35 s). The latesig family has 6 more runs (thorough: 12; every kind twice, six endings) whose Ctrl-C arrives while complete_run_meta() waits for a write lock another writer holds (4 of 6 with no other write of the handler pending, checked by counting scan_result under the lock and after the run; 2 with 5 scan results queued after the lock was taken). In every family each run with a database gets one of three states of the database path "
     "before the run (absent, empty file, used by an earlier run), the three states in shuffled turns; every second run with a hook inherits hook variables of another run, every second run with an "
-    "artifacts dir or a database changes one of three options (own int, own str, base-class float) of its config at one of the lifecycle points it reaches (shuffled in blocks of two). Thorough: every combination "
+    "artifacts dir or a database changes one of three options (own int, own str, base-class float) of its config at one of the lifecycle points it reaches (shuffled in blocks of two); every second run with an "
+    "artifacts dir (parent-timed, nested and side-by-side families excepted; about 50 runs) follows an earlier complete run of another command in the same process; plus 6 side-by-side runs (command kind x role of the "
+    "judged command in {holds the lock, waits for it}; hold point, ending, gap 0.05-0.2 s and the second command's exit code rotating; thorough: 60 = kind x (3 hold points x 4 endings + 8 endings)). Thorough: every combination "
     "x all 8 resource settings x 5 hook pairs (a rotating diagonal of the non-failing 3x3 hook square, one failing pre-hook, "
     "one failing post-hook; 5520 runs; VERIF_C15_FULL=1 runs all 25 hook pairs). One fault per run; held means held for the "
     "runs executed. A child that exceeds the watchdog is re-run; it is a finding only if it hangs again and the thread stacks "
@@ -85,7 +93,8 @@ LEVEL_NOTE = (
     "Trusted: the exit-code table and artefact oracle in vf/checks/c15.py, sqlite3, zstandard, the kernel's flock. The child "
     "mirrors gallia's CLI main (setup_logging + asyncio.run(entry_point())) but is not the gallia CLI; dumpcap is off; "
     "database-open failures and double faults are not injected (a database file that exists before the run, empty or used, opens fine). Nested runs use gallia's Rerunner with "
-    "two logging lines added in a subclass; two entry_point()s gathered side by side in one loop are not exercised. The scaled clock only reaches limits enforced through the "
+    "two logging lines added in a subclass; side-by-side runs are two tasks of one loop that share the lock file and nothing else (the second command is a plain script without database or hooks; "
+    "a real SIGINT is not sent to them); the run window is noted by the harness classes' __init__ and by the child, with the same wall clock gallia uses. The scaled clock only reaches limits enforced through the "
     "subprocess module's own timeout handling."
 )
 RULE = (
@@ -115,6 +124,9 @@ RULE = (
     "{clean, GALLIA_EXIT_CODE and GALLIA_META of another run inherited}; a dimension of every run with an artifacts dir or a database is {config untouched, the command assigns a new value to "
     "(c15_end | c15_note | power_cycle_sleep) at a lifecycle point <= its fault point}; the run-entry-completion window of the eighth family is (kind) x (6 endings) x "
     "(signal 0.15/0.3 s after complete_run_meta() was called under a foreign write lock) x (handler's queue empty | 5 results queued under the lock); "
+    "a dimension of every run with an artifacts dir is {first command of the process, the process has run another command (artifacts dir on/off, exit code in {0, 2, 5}) to its end before}; an eleventh family is "
+    "(kind) x (role of the judged command in {holder, waiter}) x (holder: hold point in {setup_post, main, teardown_pre} x ending at or after it | waiter: any ending; no real SIGINT) x (gap) x "
+    "(second command: artifacts dir on/off, exit code in {0, 4, 6}), both commands with the same lock file as tasks of one event loop; "
     "non-trivial = anything but a fault-free run without hooks and "
     "resources; distinct = distinct case tuples"
 )
@@ -176,6 +188,14 @@ ASSUMPTIONS = [
     "Ctrl-C while the run entry is completed: counted only if the harness held the write lock from before run() ended until the child had noted that the command's complete_run_meta() call was left "
     "by CancelledError; held longer than 6 s in all: not judged. Whether other writes of the handler were pending at that time is observed (scan_result count under the lock vs. after the run), "
     "both cases are judged alike; at least 3 (6) runs without pending writes are required",
+    "'the start/end times' in META.json are those of that run: the start time is not earlier than the moment right before the command object was created (a run cannot have started before its "
+    "command existed; the harness classes note datetime.now() as the first thing in __init__), the end time not later than the moment the child noted after entry_point() had ended, and a run of a process "
+    "that has run another command before did not start before that earlier run's entry_point() had ended (the later command object is created after it). Same process, same wall clock as gallia's; no tolerance",
+    "a process may run several commands, one after the other (each through its own asyncio.run(entry_point())) or side by side as tasks of one event loop (a driver script that gathers two scans which "
+    "must not use the bus at the same time and therefore share --lock-file): each run's exit code, META.json, log and lock are its own. With the same lock file the second one has to wait until the "
+    "first one's entry_point() has ended - which presupposes that the waiting lets the holder go on: an event loop that does not turn for 10 s while one command waits for the lock the other one "
+    "holds (heartbeat task of 20 ms watched by a thread; hooks block the loop only for their own run time, which is far below that) means neither run can end; the harness then ends the process and "
+    "repeats the case once; only a repeated stall is reported. flock() locks belong to the open file description: two open()s of one process contend like two processes",
     "the database may be shared with other writers: a write lock held by somebody else for up to 6 s (the handler's busy timeout is 10 s) "
     "must not cost the run its end time / exit code; a contended run is judged as such only if the measured lock time was 1.5..6 s, "
     "and not judged at all if the harness held the lock longer",
@@ -332,6 +352,30 @@ STALE_COND = "inherited-from-process-environment"
 # `scan uds identifiers` narrows self.config.end that way). The config a run is re-created from is the one it was started with.
 CFGMUT_FIELDS: dict[str, Any] = {"c15_end": 0x7F, "c15_note": "changed by the command while it ran", "power_cycle_sleep": 1.25}
 CFGMUT_COND = "config-modified-by-command-during-run"
+# ---- "an earlier run in the same process" dimension (spec["prior"], runs with an artifacts dir): the process that executes the judged command has
+# executed another gallia command before (a driver script that runs several commands one after the other, a test harness, any long-lived embedding):
+# a small AsyncScript (C15Second; optional artifacts dir of its own, ends by return or sys.exit(n)) is built and run to its end through
+# asyncio.run(entry_point()) before the judged command object is created. Both runs are judged on their own artefacts; "the start/end times" in
+# META.json are the times of *that* run: not before the command object was created (the harness classes note the time in __init__ before
+# BaseCommand.__init__ runs), not after entry_point() has ended, and - for the later run - not before the earlier run of the process had ended.
+PRIOR_COND = "earlier-run-of-the-same-process"
+PRIOR_CODES = [0, 5, 0, 2]
+# ---- "two runs side by side in one event loop, serialised by one lock file" family (spec["gather"], lock file on): a driver coroutine runs the
+# judged harness command and a second small command (C15Second, same lock file, artifacts dir of its own) as two tasks of one loop. One of them
+# (the "holder") sits suspended at a lifecycle point, holding the lock, when the entry_point() of the other one (the "waiter") is started; the holder
+# stays suspended for `gap` s more (sleeping in 10 ms steps) and then goes to its ending. Roles: the judged command holds / the judged command waits.
+# Both runs have to end with their exit code, META.json, closed log, and the waiter's lifecycle may only begin after the holder's entry_point() has
+# ended. Progress is observed from outside the loop: a heartbeat task notes the time every 20 ms, a daemon thread reads it; if the loop has not
+# turned for GATHER_STUCK_AFTER s the thread notes the state (events so far, stack of the main thread) and ends the process (GATHER_EXIT_STUCK) -
+# a blocked loop can neither be cancelled nor timed out from inside. Counted as a finding only if it happens again when the case is repeated.
+GATHER_COND = "second-run-in-the-same-event-loop"
+GATHER_POINTS = ["setup_post", "main", "teardown_pre"]
+GATHER_GAPS = [0.05, 0.1, 0.2]
+GATHER_STUCK_AFTER = 10.0
+GATHER_EXIT_STUCK = 95
+GATHER_GO_TIMEOUT = 20.0
+SECOND_CODES = [0, 4, 0, 6]
+OTHER_KINDS = ("outer", "prior", "second")  # records in logged.jsonl that are not the judged command's own
 TEXT_SURROGATE = [c for c, t in TEXT_CLASSES.items() if any(0xD800 <= ord(ch) <= 0xDFFF for ch in t)]
 LOGGER_NAME = "gallia.verif.c15"
 # set by the fault injector (main thread), read by the virtual ECU (its own thread): "answer" | "silent" | "reset"
@@ -715,6 +759,59 @@ def gen_slowhook(tier: str, seed: int, first_id: int) -> list[dict[str, Any]]:
     return rows
 
 
+def gen_gather(tier: str, seed: int, first_id: int) -> list[dict[str, Any]]:
+    """Two runs side by side in one event loop, serialised by one lock file: the judged harness command and a second small command as two tasks.
+    Role "holder": the judged command sits at a lifecycle point (setup after super().setup(), main, teardown before super().teardown()), holding the
+    lock, when the second command's entry_point() is started, and ends in any way at or after that point; role "waiter": the second command sits in
+    its main() when the judged command's entry_point() is started. Quick: command kind x role (6 runs), hold point, ending, gap and the second
+    command's exit code rotating; thorough: kind x (holder x hold point x 4 later endings + waiter x 8 endings). No real SIGINT (it would reach
+    both runs). Lock file always on, hooks never failing."""
+    import random
+
+    rng = random.Random(f"C15/gather/{tier}/{seed}")
+    combos: list[tuple[str, str, str, str, str]] = []
+    i = seed
+    for k in KINDS:
+        for role in ("holder", "waiter"):
+            for at in (GATHER_POINTS if tier != "quick" and role == "holder" else [GATHER_POINTS[i % 3]]):
+                ends = [x for x in _ends_from(at if role == "holder" else POINTS[0]) if x[0] != "sigint"]
+                if tier == "quick":
+                    picked = [ends[(i * 7 + seed) % len(ends)]]
+                else:
+                    picked = [("return", "none")] + rng.sample(ends[1:], 3 if role == "holder" else 7)
+                for e, p in picked:
+                    combos.append((k, role, at, e, p))
+                i += 1
+    rows = []
+    for i, (k, role, at, e, p) in enumerate(combos):
+        rows.append({"kind": k, "exit": e, "point": p, "pre": rng.choice(["none", "ok"]), "post": rng.choice(["none", "ok", "noisy"]),
+                     "art": (i + seed) % 3 != 2, "db": rng.random() < 0.4, "lock": True,
+                     "gather": {"role": role, "at": at, "gap": GATHER_GAPS[(i + seed) % len(GATHER_GAPS)], "art": (i + seed) % 4 != 3,
+                                "code": SECOND_CODES[(i + seed) % len(SECOND_CODES)]},
+                     "id": first_id + i})
+    return rows
+
+
+def assign_prior(tier: str, seed: int, cases: list[dict[str, Any]]) -> None:
+    """usage dimension folded into the runs of the other families: every second run with an artifacts dir (shuffled in blocks of two, by id; the
+    families that drive the child from the parent at exact moments, the nested and the side-by-side runs excepted) happens in a process that has
+    run another gallia command to its end before (spec["prior"]: artifacts dir of that earlier run on in 3 of 4, its exit code rotating)."""
+    import random
+
+    rng = random.Random(f"C15/prior/{tier}/{seed}")
+    turn: list[bool] = []
+    n = 0
+    for c in sorted(cases, key=lambda c: c["id"]):
+        if not c["art"] or any(c.get(k) for k in ("cli", "rerun", "latesig", "contend", "forkhelper", "gather")):
+            continue
+        if not turn:
+            turn = [True, False]
+            rng.shuffle(turn)
+        if turn.pop():
+            c["prior"] = {"art": (n + seed) % 4 != 3, "code": PRIOR_CODES[(n + seed) % len(PRIOR_CODES)]}
+            n += 1
+
+
 def assign_dbstate(tier: str, seed: int, cases: list[dict[str, Any]]) -> None:
     """every run with a database gets the state its database path is in before the run: each block of three consecutive such runs
     (by id) gets the three states in a freshly shuffled order"""
@@ -800,13 +897,18 @@ def shards(tier: str, seed: int) -> list[dict[str, Any]]:
     for j, c in enumerate(rrn):
         out[(j * 5 + seed + 9) % n]["cases"].append(c)
     # hooks that take long; the ones that really sleep for tens of seconds start first
-    for j, c in enumerate(gen_slowhook(tier, seed, nxt + len(rrn))):
+    slw = gen_slowhook(tier, seed, nxt + len(rrn))
+    for j, c in enumerate(slw):
         if c["slowhook"]["flavour"] == "realtime":
             out[(j * 7 + seed + 5) % n]["cases"].insert(0, c)
         else:
             out[(j * 3 + seed + 11) % n]["cases"].append(c)
+    # two runs side by side in one event loop, serialised by one lock file
+    for j, c in enumerate(gen_gather(tier, seed, nxt + len(rrn) + len(slw))):
+        out[(j * 5 + seed + 13) % n]["cases"].append(c)
     assign_dbstate(tier, seed, [c for s in out for c in s["cases"]])
     assign_usage(tier, seed, [c for s in out for c in s["cases"]])
+    assign_prior(tier, seed, [c for s in out for c in s["cases"]])
     return out
 
 
@@ -881,6 +983,16 @@ def required_reach(tier: str) -> dict[str, int]:
     need.update({"cfgmut.exercised": 40 if q else 1500, "cfgmut.meta_config_checked": 20 if q else 800, "cfgmut.run_meta_config_checked": 20 if q else 800})
     need.update({f"cfgmut.kind.{kd}": 8 if q else 300 for kd in KINDS})
     need.update({f"cfgmut.field.{f}": 5 if q else 200 for f in CFGMUT_FIELDS})
+    # META.json's start/end time was compared with the window of that run (command object created .. entry_point() ended, noted in the child); the process
+    # had run another command to its end before the judged command was created, that earlier run was judged on its own artefacts and the later
+    # run's start time was compared with the end of the earlier one
+    need.update({"meta.times_checked_against_run_window": 60 if q else 1500, "rerun.outer.times_checked_against_run_window": 3 if q else 50,
+                 "prior.exercised": 30 if q else 800, "prior.meta_checked": 20 if q else 500, "prior.later_run.start_time_checked": 30 if q else 800})
+    # two commands side by side in one event loop with one lock file: the other entry_point() was started while the holder sat suspended with the lock
+    # (probed: held), the loop went on turning, the holder went to its ending, the waiter's lifecycle began after the holder's entry_point() had ended;
+    # per role of the judged command, and the second command was judged on its own artefacts
+    need.update({"gather.exercised": 4 if q else 40, "gather.role.holder": 2 if q else 24, "gather.role.waiter": 2 if q else 16,
+                 "gather.waiter_began_after_holder_ended": 4 if q else 40, "gather.second.exercised": 4 if q else 40, "gather.second.meta_checked": 3 if q else 25})
     return need
 
 
@@ -925,6 +1037,7 @@ def define_commands() -> None:
     """Create the harness command classes as attributes of *this* module, so that run_meta.command
     ('vf.checks.c15.C15Script', ...) can be resolved the way gallia's Rerunner does it."""
     global _DEFINED, C15Script, C15Scanner, C15UDSScanner, C15ScriptConfig, C15ScannerConfig, C15UDSScannerConfig, C15ECU, C15Rerunner
+    global C15Second, C15SecondConfig
     if _DEFINED:
         return
     import gallia.command  # noqa: F401  (before gallia.plugins.plugin: circular import otherwise)
@@ -954,6 +1067,10 @@ def define_commands() -> None:
 
     class _Mixin:
         injector: Any = None
+
+        def __init__(self, config: Any) -> None:
+            self.c15_created = iso_now()  # the command object does not exist before this moment
+            super().__init__(config)  # type: ignore[call-arg]
 
         async def setup(self) -> None:
             await self.injector.at("setup_pre", self)
@@ -1007,6 +1124,10 @@ def define_commands() -> None:
         SHORT_HELP = "C15 harness: gallia's Rerunner"
         injector: Any = None
 
+        def __init__(self, config: Any) -> None:
+            self.c15_created = iso_now()
+            super().__init__(config)
+
         async def setup(self) -> None:
             await super().setup()
             self.injector.outer_say("outer run: setup, the command to re-run has not been created yet")
@@ -1030,7 +1151,25 @@ def define_commands() -> None:
         CONFIG_TYPE = C15UDSScannerConfig
         SHORT_HELP = "C15 harness UDS scanner"
 
-    for c in (C15ScriptConfig, C15ScannerConfig, C15UDSScannerConfig, C15Script, C15Scanner, C15UDSScanner):
+    class C15SecondConfig(AsyncScriptConfig):  # type: ignore[no-redef]
+        c15_code: int = 0
+        c15_role: str = "prior"
+
+    class C15Second(AsyncScript):  # type: ignore[no-redef]
+        """The other command of a process that runs more than one: an earlier run ("prior") or the run beside the judged one ("second")."""
+
+        CONFIG_TYPE = C15SecondConfig
+        SHORT_HELP = "C15 harness: another command of the same process"
+        injector: Any = None
+
+        def __init__(self, config: Any) -> None:
+            self.c15_created = iso_now()
+            super().__init__(config)
+
+        async def main(self) -> None:
+            await self.injector.other_main(self)
+
+    for c in (C15ScriptConfig, C15ScannerConfig, C15UDSScannerConfig, C15Script, C15Scanner, C15UDSScanner, C15SecondConfig, C15Second):
         c.__module__ = "vf.checks.c15"
         c.__qualname__ = c.__name__
     _DEFINED = True
@@ -1060,6 +1199,28 @@ def build_outer_config(spec: dict[str, Any], rundir: Path) -> Any:
     return C15Rerunner.CONFIG_TYPE(**kw)
 
 
+def iso_now() -> str:
+    return datetime.now().astimezone().isoformat()
+
+
+def other_art(rundir: Path, which: str) -> Path:
+    """artifacts base of the other command of the process ("prior": the earlier run, "second": the run beside the judged one)"""
+    return rundir / f"{which}-art"
+
+
+def build_other(spec: dict[str, Any], rundir: Path, which: str, inj: Any) -> Any:
+    define_commands()
+    d = spec["prior"] if which == "prior" else spec["gather"]
+    kw: dict[str, Any] = {"volatile_info": False, "c15_code": int(d["code"]), "c15_role": which}
+    if d.get("art"):
+        kw["artifacts_base"] = other_art(rundir, which)
+    if which == "second":
+        kw["lock_file"] = run_paths(rundir)["lock"]  # the same lock file as the judged command's
+    cmd = C15Second(C15SecondConfig(**kw))
+    cmd.injector = inj
+    return cmd
+
+
 def marker(spec: dict[str, Any]) -> str:
     return f"C15-MARKER id={spec.get('id', 0)} {spec['kind']}/{spec['exit']}/{spec['point']} last record before the fault"
 
@@ -1079,6 +1240,8 @@ class Injector:
         self.run_over = False
         self.inner_cmd: Any = None  # nested runs: the command the Rerunner re-created
         self.qh_base = 0
+        self.g_hold: Any = None  # side-by-side runs: asyncio events "the holder sits at its hold point" / "the other entry_point() has been started"
+        self.g_go: Any = None
 
     def event(self, name: str) -> None:
         os.write(self.fd, (name + "\n").encode())
@@ -1094,6 +1257,44 @@ class Injector:
 
         # setup_logging(logger_name="") puts the console handler on the root logger; on "gallia" only add_zst_log_handler() attaches one
         return sum(1 for h in logging.getLogger("gallia").handlers if type(h).__name__ == "QueueHandler")
+
+    async def gather_hold(self, who: str, where: str) -> None:
+        """Side-by-side runs: this command holds the lock file and stays suspended here (an await point like any other) until the driver has started
+        the other command's entry_point() in the same loop, and for `gap` s more; then it goes on to its ending."""
+        import asyncio
+
+        if self.g_hold is None:
+            return
+        self.probe_lock("lock-at-gather-hold")
+        self.event(f"gather_hold {who} {where}")
+        self.g_hold.set()
+        try:
+            await asyncio.wait_for(self.g_go.wait(), GATHER_GO_TIMEOUT)
+        except asyncio.TimeoutError:
+            self.event("gather_go_missed")
+            return
+        limit = time.monotonic() + float(self.spec["gather"]["gap"])
+        while time.monotonic() < limit:
+            await asyncio.sleep(0.01)
+        self.event("gather_hold_over")
+
+    async def other_main(self, cmd: Any) -> None:
+        """main() of the other command of the process (C15Second): two records through gallia's logger, the lock probed if it has one, the hold
+        if it is the holder of a side-by-side run, then its ending (return or sys.exit(n))."""
+        from gallia.log import get_logger
+
+        which = cmd.config.c15_role
+        log = get_logger(LOGGER_NAME)
+        self.event(f"{which}_main")
+        self.say(log, f"C15-{which.upper()} id={self.spec.get('id', 0)} main() of the {which} command begins", which)
+        if cmd.config.lock_file is not None:
+            self.probe_lock(f"{which}-lock-in-main")
+        if which == "second" and self.spec["gather"]["role"] == "waiter":
+            await self.gather_hold("second", "main")
+        self.say(log, f"C15-{which.upper()} id={self.spec.get('id', 0)} main() of the {which} command ends with {cmd.config.c15_code}", which)
+        self.event(f"{which}_main_done")
+        if cmd.config.c15_code:
+            sys.exit(cmd.config.c15_code)
 
     def outer_say(self, text: str) -> None:
         """a record of the outer run of a nested run (logged while only the outer run's log file is open)"""
@@ -1352,6 +1553,9 @@ class Injector:
             ECU_CTL["mode"] = "silent" if spec["exit"] == "ecusilent" else "reset"
             self.event(f"ecu_mode {ECU_CTL['mode']}")
             return
+        if spec.get("gather") and spec["gather"]["role"] == "holder" and spec["gather"]["at"] == point:
+            await self.gather_hold("A", point)
+            self.say_seq(log, "went on after another command's entry_point() had been started in the same event loop")
         fire = spec["point"] == point or (spec["exit"] == "return" and point == "main")
         if not fire:
             return
@@ -1475,6 +1679,9 @@ def observe_entry_point_end(cmd: Any, out: Path, prefix: str = "", qh_base: int 
             # (nested runs: qh_base is what was attached before this run's entry_point() began - the outer run's handler)
             "queue_handlers_on_gallia": Injector.queue_handlers() - qh_base,
             "log_copied": False,
+            # the window of this run: the moment before the command object was created (noted by the harness classes' __init__) .. now
+            "created": getattr(cmd, "c15_created", None),
+            "ended": iso_now(),
         }
         ad = getattr(cmd, "artifacts_dir", None)
         if ad is not None:
@@ -1489,6 +1696,95 @@ def observe_entry_point_end(cmd: Any, out: Path, prefix: str = "", qh_base: int 
             (out / f"{prefix}entry-point-end.error").write_text(repr(e))
         except OSError:
             pass
+
+
+async def run_other(cmd: Any, inj: Any) -> Any:
+    """the entry_point() of the other command of the process, observed the way child_main() observes the judged one"""
+    which = cmd.config.c15_role
+    inj.event(f"{which}_entry_point_begins")
+    try:
+        rc = await cmd.entry_point()
+        (inj.out / f"{which}-returned").write_text(json.dumps(rc))
+        return rc
+    except BaseException as e:  # noqa: BLE001
+        (inj.out / f"{which}-escaped").write_text(f"{type(e).__name__}: {e!r}"[:300])
+        raise
+    finally:
+        observe_entry_point_end(cmd, inj.out, prefix=f"{which}-")
+        inj.event(f"{which}_entry_point_ended")
+
+
+def run_prior(spec: dict[str, Any], rundir: Path, inj: Any) -> None:
+    """Child, before the judged command object is created: the process runs another gallia command to its end (a driver script that executes
+    several commands, one asyncio.run(entry_point()) each)."""
+    import asyncio
+
+    try:
+        asyncio.run(run_other(build_other(spec, rundir, "prior", inj), inj))
+    except KeyboardInterrupt:
+        raise
+    except BaseException:  # noqa: BLE001  (noted by run_other; the judged run takes place all the same)
+        pass
+
+
+async def gather_driver(cmd: Any, second: Any, inj: Any) -> Any:
+    """Child, side-by-side runs: the judged command and the second command as two tasks of this loop. The holder is started first; when it sits at its
+    hold point the other one's entry_point() is started. A heartbeat task and a daemon thread watch from outside whether the loop still turns."""
+    import asyncio
+    import threading
+    import traceback
+
+    spec, out = inj.spec, inj.out
+    inj.g_hold, inj.g_go = asyncio.Event(), asyncio.Event()
+    beat = {"t": time.monotonic(), "n": 0, "stop": False}
+    main_ident = threading.get_ident()
+
+    async def heart() -> None:
+        while True:
+            beat["t"], beat["n"] = time.monotonic(), beat["n"] + 1
+            await asyncio.sleep(0.02)
+
+    def watch() -> None:
+        while not beat["stop"]:
+            time.sleep(0.2)
+            silent = time.monotonic() - beat["t"]
+            if silent >= GATHER_STUCK_AFTER and not beat["stop"]:
+                fr = sys._current_frames().get(main_ident)
+                stack = [f"{f.filename.split('/src/')[-1]}:{f.lineno} {f.name}: {(f.line or '').strip()}" for f in traceback.extract_stack(fr)][-8:] if fr is not None else []
+                try:
+                    (out / "loop-stuck.json").write_text(json.dumps({"silent_for": round(silent, 2), "heartbeats": beat["n"], "main_thread": stack}))
+                finally:
+                    os._exit(GATHER_EXIT_STUCK)
+
+    async def run_a() -> Any:
+        inj.event("A_entry_point_begins")
+        try:
+            return await cmd.entry_point()
+        finally:
+            observe_entry_point_end(cmd, out, qh_base=inj.qh_base)
+            inj.event("A_entry_point_ended")
+
+    hb = asyncio.create_task(heart())
+    threading.Thread(target=watch, name="c15-loop-watch", daemon=True).start()
+    try:
+        holder_first = spec["gather"]["role"] == "holder"
+        first, other = (run_a, lambda: run_other(second, inj)) if holder_first else (lambda: run_other(second, inj), run_a)
+        t1 = asyncio.create_task(first())
+        hold = asyncio.create_task(inj.g_hold.wait())
+        await asyncio.wait({t1, hold}, return_when=asyncio.FIRST_COMPLETED)
+        hold.cancel()
+        t2 = asyncio.create_task(other())
+        await asyncio.sleep(0)  # the new task takes its first step (up to its first suspension) before this coroutine goes on
+        inj.event("gather_loop_turns_after_other_began")
+        inj.g_go.set()
+        await asyncio.wait({t1, t2})
+        ta, tb = (t1, t2) if holder_first else (t2, t1)
+        if not tb.cancelled():
+            tb.exception()  # (noted by run_other; retrieved so that asyncio does not complain)
+        return ta.result()  # the judged command's exit code, or the exception that left its entry_point()
+    finally:
+        beat["stop"] = True
+        hb.cancel()
 
 
 def prepare_db_state(spec: dict[str, Any], rundir: Path, config: Any) -> None:
@@ -1647,6 +1943,10 @@ def child_main(specfile: str) -> None:
     prepare_db_state(spec, rundir, config)
     scale_subprocess_clock(spec, paths["out"])
     inj = Injector(spec, rundir)
+    if spec.get("prior"):
+        run_prior(spec, rundir, inj)
+        inj.qh_base = Injector.queue_handlers()  # what the earlier run left attached is judged as its own leftover
+    second = build_other(spec, rundir, "second", inj) if spec.get("gather") else None
     nested = bool(spec.get("rerun"))
     if nested:
         # the command of this spec is the inner run: gallia's Rerunner builds it from the META.json and awaits its entry_point()
@@ -1665,9 +1965,10 @@ def child_main(specfile: str) -> None:
     (paths["out"] / "started").write_text(config.model_dump_json())
     try:
         try:
-            rc = asyncio.run(cmd.entry_point())
+            rc = asyncio.run(gather_driver(cmd, second, inj)) if second is not None else asyncio.run(cmd.entry_point())
         finally:
-            observe_entry_point_end(cmd, paths["out"], prefix=pre)
+            if second is None:  # (side-by-side runs: taken by the driver the moment the judged command's entry_point() ended)
+                observe_entry_point_end(cmd, paths["out"], prefix=pre, qh_base=0 if nested else inj.qh_base)
         (paths["out"] / f"{pre}returned").write_text(json.dumps(rc))
     except BaseException as e:
         escaped_exc = not isinstance(e, KeyboardInterrupt)
@@ -2023,7 +2324,28 @@ def execute(spec: dict[str, Any], rundir: Path, timeout: float = CHILD_TIMEOUT) 
             logged_all.append([json.dumps(d["t"]), d["k"], any(0xD800 <= ord(ch) <= 0xDFFF for ch in d["t"])])
         except (ValueError, KeyError):
             pass
-    obs["logged"] = [x for x in logged_all if x[1] != "outer"]
+    obs["logged"] = [x for x in logged_all if x[1] not in OTHER_KINDS]
+    # ---- the other command of the process (an earlier run / the run beside the judged one): what it left behind, kept apart
+    obs["loop_stuck"] = json.loads(_read(out / "loop-stuck.json") or "null")
+    obs["lock_at_gather_hold"] = (_read(out / "lock-at-gather-hold") or "").strip() or None
+    obs["others"] = {}
+    for which in ("prior", "second"):
+        if not spec.get("prior" if which == "prior" else "gather"):
+            continue
+        od: dict[str, Any] = {"returned": json.loads(_read(out / f"{which}-returned") or "null"), "escaped": _read(out / f"{which}-escaped"),
+                              "ep_end": json.loads(_read(out / f"{which}-entry-point-end.json") or "null"), "ep_end_error": _read(out / f"{which}-entry-point-end.error"),
+                              "lock_in_main": (_read(out / f"{which}-lock-in-main") or "").strip() or None,
+                              "logged": [x for x in logged_all if x[1] == which], "meta_raw": None, "log": None, "log_at_ep_end": None}
+        ab = other_art(rundir, which)
+        dirs = sorted(ab.glob("*/run-*")) if ab.exists() else []
+        od["artifact_dirs"] = [str(p) for p in dirs]
+        if len(dirs) == 1:
+            od["meta_raw"] = _read(dirs[0] / "META.json")
+            if (dirs[0] / "log.json.zst").exists():
+                od["log"] = analyze_log(dirs[0] / "log.json.zst", spec)
+        if (out / f"{which}-log-at-entry-point-end.zst").exists():
+            od["log_at_ep_end"] = analyze_log(out / f"{which}-log-at-entry-point-end.zst", spec)
+        obs["others"][which] = od
     obs["hook_clock_scaled"] = (out / "hook-clock-scaled").exists()
     obs["db_initialised"] = (out / "db-initialised").exists()
     obs["db_initialise_failed"] = _read(out / "db-initialise-failed")
@@ -2185,6 +2507,118 @@ def recreate_config(command: str, config: dict[str, Any]) -> Any:
     return cls, cls.CONFIG_TYPE(**config)
 
 
+def times_in_window(meta: dict[str, Any], epe: dict[str, Any] | None, prior: dict[str, Any] | None, whose: str, hit: Any) -> list[tuple[str, str]]:
+    """'META.json carries the start/end times' of this run: the start time is not earlier than the moment before the command object was created, the
+    end time not later than the moment entry_point() had ended (both noted by the harness in the same process, same clock), and a run that came
+    after another run of the same process did not start before that one had ended."""
+    out: list[tuple[str, str]] = []
+    st, en = datetime.fromisoformat(meta["start_time"]), datetime.fromisoformat(meta["end_time"])
+    if st.tzinfo is None or en.tzinfo is None:
+        return out
+    if epe and epe.get("created") and epe.get("ended"):
+        c0, c1 = datetime.fromisoformat(epe["created"]), datetime.fromisoformat(epe["ended"])
+        hit("meta.times_checked_against_run_window")
+        if st < c0:
+            out.append(("meta/times-invalid/start-before-command-was-created", f"META.json{whose} says the run started at {meta['start_time']}; the command object of this run was created only at "
+                        f"{epe['created']} ({(c0 - st).total_seconds():.3f} s later; noted right before BaseCommand.__init__ ran), its entry_point() ended at {epe['ended']}"))
+        if en > c1:
+            out.append(("meta/times-invalid/end-after-entry-point-ended", f"META.json{whose} says the run ended at {meta['end_time']}; its entry_point() had ended by {epe['ended']}"))
+    pe = ((prior or {}).get("ep_end") or {}).get("ended")
+    if pe:
+        hit("prior.later_run.start_time_checked")
+        if st < datetime.fromisoformat(pe):
+            pm = None
+            try:
+                pm = json.loads(prior.get("meta_raw") or "null")  # type: ignore[union-attr]
+            except ValueError:
+                pass
+            out.append((f"meta/times-invalid/start-before-earlier-run-ended/{PRIOR_COND}", f"META.json{whose} says the run started at {meta['start_time']}, but the process had run another command before, "
+                        f"whose entry_point() ended only at {pe} ({(datetime.fromisoformat(pe) - st).total_seconds():.3f} s later), and the command object of this run was created after that"
+                        + (f"; META.json of the earlier run: start {pm.get('start_time')} end {pm.get('end_time')}" + (" - the same start time" if pm.get("start_time") == meta["start_time"] else "") if isinstance(pm, dict) else "")))
+    return out
+
+
+def judge_other(spec: dict[str, Any], obs: dict[str, Any], which: str, reach: Any = None) -> list[tuple[str, str]]:
+    """The artefact oracle for the other command of the process: the earlier run ("prior") or the run beside the judged one ("second"). A plain
+    AsyncScript that ends by return or sys.exit(n): entry_point() returns n, META.json (artifacts dir on) says n and carries this run's times, the log is
+    closed and readable and holds its two records when entry_point() has ended, no log handler stays attached, the lock (second) was held in main()."""
+    cond = PRIOR_COND if which == "prior" else GATHER_COND
+
+    def hit(name: str, n: int = 1) -> None:
+        if reach is not None:
+            reach(f"{'prior' if which == 'prior' else 'gather.second'}.{name}", n)
+
+    v: list[tuple[str, str]] = []
+    o = (obs.get("others") or {}).get(which)
+    d = spec["prior"] if which == "prior" else spec["gather"]
+    if o is None or obs.get("loop_stuck") or not obs["started"]:
+        return v
+    began = f"{which}_entry_point_begins" in obs["events"]
+    if not began:
+        hit("not_started")
+        return v
+    if o["escaped"] is not None:
+        return [(f"entry_point/escaped-exception/{cond}", f"the entry_point() of the {which} command of the process raised instead of returning an exit code: {o['escaped']}")]
+    if o["ep_end"] is None:
+        hit("not_ended")  # the process ended before this run did (reported for the judged run)
+        return v
+    hit("exercised")
+    want = int(d["code"])
+    if o["returned"] != want:
+        v.append((f"exit/code-differs/{cond}", f"the {which} command's entry_point() returned {o['returned']!r}; its main() " + (f"called sys.exit({want})" if want else "returned")))
+    meta = None
+    if d.get("art"):
+        if len(o["artifact_dirs"]) != 1:
+            v.append((f"meta/artifacts-dir-count/{cond}", f"{len(o['artifact_dirs'])} run directories below the artifacts base of the {which} command"))
+        elif o["meta_raw"] is None:
+            v.append((f"meta/missing/{cond}", f"artifacts dir configured for the {which} command but its META.json was not written"))
+        else:
+            try:
+                meta = json.loads(o["meta_raw"])
+                assert isinstance(meta, dict) and {"command", "start_time", "end_time", "exit_code", "config"} <= set(meta)
+            except (ValueError, AssertionError):
+                v.append(("meta/unparsable", f"META.json of the {which} command: {o['meta_raw'][:200]!r}"))
+                meta = None
+    elif o["artifact_dirs"]:
+        v.append(("meta/artifacts-without-config", f"no artifacts dir configured for the {which} command but one was created"))
+    if meta is not None:
+        hit("meta_checked")
+        if meta["exit_code"] != want:
+            v.append((f"meta/exit-code-differs/{cond}", f"META.json of the {which} command says exit_code={meta['exit_code']!r}, its entry_point() returned {o['returned']!r}"))
+        try:
+            if not datetime.fromisoformat(meta["start_time"]) <= datetime.fromisoformat(meta["end_time"]):
+                v.append(("meta/times-invalid/start-after-end", f"{which} command: start {meta['start_time']} > end {meta['end_time']}"))
+            v.extend(times_in_window(meta, o["ep_end"], None, f" of the {which} command", hit))
+        except (ValueError, TypeError):
+            v.append(("meta/times-invalid/not-iso", f"{which} command: start={meta['start_time']!r} end={meta['end_time']!r}"))
+    if d.get("art") and len(o["artifact_dirs"]) == 1:
+        wanted = [t for t, _, sur in o["logged"] if not sur]
+        for lg, when in ((o["log"], "file after the process ended"), (o["log_at_ep_end"], f"file as it is when the {which} command's entry_point() has ended")):
+            have = {k for k, _ in v}
+            found: list[tuple[str, str]] = []
+            if lg is None:
+                found.append((f"log/missing/{cond}", f"log.json.zst of the {which} command does not exist ({when})"))
+            elif not lg.get("closed"):
+                found.append((f"log/not-closed/{cond}", f"log.json.zst of the {which} command is not a complete zstd stream ({when}; {lg.get('size')} bytes on disk)"))
+            elif "read_error" in lg:
+                found.append((f"log/unreadable/{cond}", f"PenlogReader fails on the log of the {which} command ({when}): {lg['read_error']}"))
+            else:
+                hit("log_checked")
+                missing = [t for t in wanted if t not in (lg.get("own") or [])]
+                if missing:
+                    found.append((f"log/records-missing/{cond}", f"{len(missing)} of the {len(wanted)} records the {which} command logged in its main() are not in its log ({when}); first missing: {missing[0][:120]}"))
+            v.extend(f for f in found if f[0] not in have)
+    epe = o["ep_end"]
+    if (epe.get("log_file_handlers_left") or epe.get("queue_handlers_on_gallia")) and f"log/not-closed/{cond}" not in {k for k, _ in v}:
+        v.append((f"log/handler-left-attached/{cond}", f"the {which} command's entry_point() has ended with {epe.get('log_file_handlers_left')} log file handler(s) in log_file_handlers and "
+                  f"{epe.get('queue_handlers_on_gallia')} queue handler(s) still attached to the 'gallia' logger (the next run of the process would write into this run's log)"))
+    if which == "second" and f"{which}_main" in obs["events"]:
+        hit("lock_probed_in_main")
+        if o["lock_in_main"] == "free":
+            v.append((f"lock/not-held-during-run/{GATHER_COND}", "the lock file could be locked by somebody else while the second command's main() ran"))
+    return v
+
+
 def judge(spec: dict[str, Any], obs: dict[str, Any], rundir: Path, reach: Any = None) -> list[tuple[str, str]]:
     """-> [(key, what)]; keys name the mechanism"""
     def hit(name: str, n: int = 1) -> None:
@@ -2209,6 +2643,19 @@ def judge(spec: dict[str, Any], obs: dict[str, Any], rundir: Path, reach: Any = 
     want = expected_codes(spec)
     esc = obs["escaped"]
 
+    # ---- two runs side by side in one event loop: the loop stopped turning (seen from a thread outside it) - neither run can end any more
+    g = spec.get("gather")
+    if g and obs.get("loop_stuck"):
+        ls = obs["loop_stuck"]
+        holder, waiter = ("the judged command", "the second command") if g["role"] == "holder" else ("the second command", "the judged command")
+        began = ("second" if g["role"] == "holder" else "A") + "_entry_point_begins"
+        hit("gather.loop_stuck")
+        return [(f"lock/waiting-for-lock-file-stalls-event-loop/{GATHER_COND}",
+                 f"two commands in one event loop with the same lock file: {holder} ({kind if g['role'] == 'holder' else 'script'}) held the lock and sat suspended at "
+                 f"{g['at'] if g['role'] == 'holder' else 'main'} when the entry_point() of {waiter} was started "
+                 + ("(noted)" if began in events else "(not noted)") + f"; from then on the event loop did not turn for {ls.get('silent_for')} s (heartbeat task silent after {ls.get('heartbeats')} beats, "
+                 f"watched from a thread; the process was then ended by the harness): the holder can never go on to its ending and release the lock, neither run ends - no exit code, "
+                 f"no META.json, log not closed, lock not released. Main thread: {' <- '.join(reversed(ls.get('main_thread') or []))[:700]}")]
     # ---- an exception that leaves entry_point() is one mechanism; its consequences are listed, not keyed
     if esc is not None and not (real_sigint and esc["type"] == "KeyboardInterrupt"):
         hv = esc.get("hook_variant")
@@ -2291,6 +2738,23 @@ def judge(spec: dict[str, Any], obs: dict[str, Any], rundir: Path, reach: Any = 
             hit(f"forkhelper.at.{fh['at']}")
             hit("forkhelper.lock_probed_after_return", 1 if obs["returned"] is not None and obs["lock_after_entry_point"] in ("free", "held") else 0)
 
+    # ---- two runs side by side in one event loop: did the other entry_point() really begin while the holder sat suspended with the lock, and did the
+    # waiter's lifecycle begin only after the holder's entry_point() had ended?
+    if g:
+        hold_ev = f"gather_hold {'A ' + g['at'] if g['role'] == 'holder' else 'second main'}"
+        began_ev, holder_end, waiter_start = (("second_entry_point_begins", "A_entry_point_ended", "second_main") if g["role"] == "holder" else
+                                              ("A_entry_point_begins", "second_entry_point_ended", "setup_pre"))
+        idx = {e: events.index(e) for e in (hold_ev, began_ev, "gather_loop_turns_after_other_began", "gather_hold_over", holder_end, waiter_start) if e in events}
+        g_hit = (len(idx) == 6 and idx[hold_ev] < idx[began_ev] < idx["gather_loop_turns_after_other_began"] < idx["gather_hold_over"] < idx[holder_end]
+                 and obs.get("lock_at_gather_hold") == "held")
+        hit("gather.exercised" if g_hit else "gather.not_exercised")
+        if g_hit:
+            hit(f"gather.role.{g['role']}")
+            hit(f"gather.kind.{kind}")
+            hit("gather.waiter_began_after_holder_ended", 1 if idx[holder_end] < idx[waiter_start] else 0)
+        if holder_end in idx and waiter_start in idx and idx[waiter_start] < idx[holder_end]:
+            v.append((f"lock/not-held-during-run/{GATHER_COND}", f"two commands in one event loop with the same lock file: the lifecycle of the one that had to wait for the lock began "
+                      f"({waiter_start}) before the entry_point() of the one holding it had ended ({holder_end}); events: {events[:40]}"))
     hit("fault.point_reached", 1 if "fault" in events else 0)
     # ---- the command changed an option of its own config object while it ran: did that really happen in this run?
     cfgmut_field = next((e.split(" ", 1)[1] for e in events if e.startswith("config_modified ")), None)
@@ -2441,6 +2905,7 @@ def judge(spec: dict[str, Any], obs: dict[str, Any], rundir: Path, reach: Any = 
             st, en = datetime.fromisoformat(meta["start_time"]), datetime.fromisoformat(meta["end_time"])
             if not st <= en:
                 v.append(("meta/times-invalid/start-after-end", f"start {meta['start_time']} > end {meta['end_time']}"))
+            v.extend(times_in_window(meta, obs.get("ep_end"), (obs.get("others") or {}).get("prior"), "", hit))
         except (ValueError, TypeError):
             v.append(("meta/times-invalid/not-iso", f"start={meta['start_time']!r} end={meta['end_time']!r}"))
         try:
@@ -2697,6 +3162,7 @@ def judge_outer(spec: dict[str, Any], obs: dict[str, Any], rundir: Path, reach: 
         try:
             if not datetime.fromisoformat(meta["start_time"]) <= datetime.fromisoformat(meta["end_time"]):
                 v.append(("meta/times-invalid/start-after-end", f"outer run: start {meta['start_time']} > end {meta['end_time']}"))
+            v.extend(times_in_window(meta, o["ep_end"], None, " of the Rerunner's run", lambda name, n=1: hit("outer." + name.replace("meta.", ""), n)))
         except (ValueError, TypeError):
             v.append(("meta/times-invalid/not-iso", f"outer run: start={meta['start_time']!r} end={meta['end_time']!r}"))
         try:
@@ -2915,7 +3381,7 @@ def hang_blame(obs: dict[str, Any]) -> str:
 def summarize(obs: dict[str, Any]) -> dict[str, Any]:
     s = {k: obs.get(k) for k in ("rc", "wall", "events", "returned", "escaped", "sigint_delivered", "watchdog", "lock_at_fault",
                                  "lock_after_entry_point", "lock_after_exit", "artifact_dirs", "run_meta", "log", "hook_pre_lock", "hook_post_lock", "contend", "run_meta_other_writer_rows",
-                                 "ep_end", "ep_end_error", "log_at_ep_end", "ecu_answers", "ecu_rdbi_answers", "ecu_faulted", "latesig", "after_ep")}
+                                 "ep_end", "ep_end_error", "log_at_ep_end", "ecu_answers", "ecu_rdbi_answers", "ecu_faulted", "latesig", "after_ep", "loop_stuck", "lock_at_gather_hold")}
     s["meta"] = (obs.get("meta_raw") or "")[:600] or None
     for k in ("hook_pre_done", "hook_post_done", "hook_clock_scaled", "db_initialised", "db_initialise_failed"):
         if obs.get(k):
@@ -2930,6 +3396,16 @@ def summarize(obs: dict[str, Any]) -> dict[str, Any]:
         if oo.get("run_meta"):
             oo["run_meta"] = [{k: (x[:200] if isinstance(x, str) else x) for k, x in r.items()} for r in oo["run_meta"]]
         s["outer"] = oo
+    if obs.get("others"):
+        s["others"] = {}
+        for which, od in obs["others"].items():
+            oo = dict(od)
+            oo["meta"] = (oo.pop("meta_raw") or "")[:600] or None
+            oo["logged"] = [[t[:120], k, sur] for t, k, sur in oo.get("logged") or []]
+            for f in ("log", "log_at_ep_end"):
+                if isinstance(oo.get(f), dict) and "own" in oo[f]:
+                    oo[f] = {**oo[f], "own": [x[:120] for x in oo[f]["own"]]}
+            s["others"][which] = oo
     s["logged"] = [[t[:120], k, sur] for t, k, sur in (obs.get("logged") or [])]
     for f in ("log", "log_at_ep_end"):
         if isinstance(s.get(f), dict) and "own" in s[f]:
@@ -2955,7 +3431,9 @@ def case_ident(spec: dict[str, Any]) -> tuple[Any, ...]:
             + (("slowhook",) + tuple(sorted(spec["slowhook"].items())) if spec.get("slowhook") else ())
             + (("dbstate", spec["dbstate"]) if spec.get("dbstate", "absent") != "absent" else ())
             + (("staleenv",) + tuple(spec["staleenv"]["vars"]) if spec.get("staleenv") else ())
-            + (("cfgmut",) + tuple(sorted(spec["cfgmut"].items())) if spec.get("cfgmut") else ()))
+            + (("cfgmut",) + tuple(sorted(spec["cfgmut"].items())) if spec.get("cfgmut") else ())
+            + (("prior",) + tuple(sorted(spec["prior"].items())) if spec.get("prior") else ())
+            + (("gather",) + tuple(sorted(spec["gather"].items())) if spec.get("gather") else ()))
 
 
 def process_case(ctx: Any, spec: dict[str, Any], base: Path, lock: Any) -> dict[str, Any] | None:
@@ -2963,6 +3441,13 @@ def process_case(ctx: Any, spec: dict[str, Any], base: Path, lock: Any) -> dict[
 
     rundir = base / f"r{spec.get('id', 0)}"
     obs = execute(spec, rundir)
+    if obs.get("loop_stuck"):
+        # the event loop of a side-by-side run stopped turning for GATHER_STUCK_AFTER s: a finding only if it does so again
+        shutil.rmtree(rundir, ignore_errors=True)
+        again = execute(spec, rundir)
+        with lock:
+            ctx.reach("gather.loop_stuck_reproduced" if again.get("loop_stuck") else "gather.loop_stuck_not_reproduced")
+        obs = again
     hang = None
     if obs["watchdog"]:
         # A watchdog alone is a harness problem. It becomes a finding only if it reproduces and the thread stacks the
@@ -3029,6 +3514,10 @@ def process_case(ctx: Any, spec: dict[str, Any], base: Path, lock: Any) -> dict[
         if obs["ecu_rdbi_answers"]:
             ctx.reach("ecu.properties_requests_answered")
         found = judge(spec, obs, rundir, ctx.reach)
+        for which in ("prior", "second"):
+            if spec.get("prior" if which == "prior" else "gather"):
+                seen = {k for k, _ in found}
+                found += [f for f in judge_other(spec, obs, which, ctx.reach) if f[0] not in seen]
         if spec.get("rerun"):
             seen = {k for k, _ in found}
             found += [f for f in judge_outer(spec, obs, rundir, ctx.reach) if f[0] not in seen]
@@ -3043,7 +3532,7 @@ def process_case(ctx: Any, spec: dict[str, Any], base: Path, lock: Any) -> dict[
                    None if rm is None else (rm["end_time"] is None, rm["exit_code"]), obs["hook_pre_env"] is not None,
                    obs["hook_post_env"] is not None, tuple(sorted(k for k, _ in found))))
         ctx.reach(f"outcome.rc={obs['rc']}")
-        ctx.sample({"case": {f: spec[f] for f in FACTORS + [x for x in ("contend", "dbcycle", "logtext", "forkhelper", "latesig", "rerun", "slowhook", "dbstate", "staleenv", "cfgmut") if spec.get(x)]}, "rc": obs["rc"], "meta_exit_code": meta_code, "events": obs["events"],
+        ctx.sample({"case": {f: spec[f] for f in FACTORS + [x for x in ("contend", "dbcycle", "logtext", "forkhelper", "latesig", "rerun", "slowhook", "dbstate", "staleenv", "cfgmut", "prior", "gather") if spec.get(x)]}, "rc": obs["rc"], "meta_exit_code": meta_code, "events": obs["events"],
                     "run_meta": None if rm is None else {"end_time_null": rm["end_time"] is None, "exit_code": rm["exit_code"]},
                     "keys": sorted(k for k, _ in found)})
         for key, what in found:
